@@ -90,6 +90,10 @@ def run_part(v, tier):
         if crashed(s_) or s_["timeout"]:
             v.violation("b-stdin-crash:" + texts[i], {"kind": "crash or hang reading the program on standard input", "part": "b", "text": texts[i], "stderr": s_["err"][-300:]})
             continue
+        if any(n in ("amp", "fiamp") for n in pref[i]["lines"]):
+            # the output of a background job interleaves freely with the foreground's: only WHAT is printed is compared, not the order
+            for r_ in (f, s_, b):
+                r_["out"] = "\n".join(sorted(r_["out"].splitlines()))
         if (b["out"], b["rc"]) != (f["out"], f["rc"]):
             continue            # brush (file) and bash differ on this text for reasons that are not about delivery: not judged here
         if (s_["out"], s_["rc"]) != (f["out"], f["rc"]):
